@@ -31,7 +31,7 @@ manifest = {
     "hooks": {
         "guard": "cargo feature `verif-hooks` of qrlew (off by default)",
         "enable": "the harness crate /verif/harness depends on qrlew = { path = \"/repo\", features = [\"sqlite\", \"verif-hooks\"] }; every check runs `cargo build --offline --profile verif` there, which rebuilds qrlew from /repo's working tree",
-        "baseline_off_cmd": "cd /repo && cargo nextest run --workspace --no-fail-fast --offline --test-threads 8 || cargo test --workspace --no-fail-fast --offline",
+        "baseline_off_cmd": "/verif/lib/run_stable_tests.sh   # the 403 stable baseline tests, default features (guard off); full suite: cd /repo && cargo test --workspace --no-fail-fast --offline",
         "source_commits": HOOK_COMMITS,
         "add_only": True,
     },
